@@ -49,7 +49,8 @@ pub fn to_line_col(starts: &[usize], offset: usize) -> (usize, usize) {
             break;
         }
     }
-    (idx + 1, offset - starts[idx] + 1)
+    // a column beyond usize::MAX is not representable: saturate (the 1-indexed column is never 0)
+    (idx + 1, (offset - starts[idx]).saturating_add(1))
 }
 
 /// Faster equivalent of `to_line_col` (binary search) for large texts; cross-checked against
@@ -59,7 +60,7 @@ pub fn to_line_col_fast(starts: &[usize], offset: usize) -> (usize, usize) {
         Ok(i) => i,
         Err(i) => i - 1,
     };
-    (idx + 1, offset - starts[idx] + 1)
+    (idx + 1, (offset - starts[idx]).saturating_add(1))
 }
 
 pub fn to_offset(starts: &[usize], text_len: usize, line: usize, col: usize) -> Option<usize> {
